@@ -84,6 +84,25 @@ def check_roundtrip(j) -> None:
     for k, (a, b) in enumerate(zip(sub.instructions, back.instructions)):
         if type(a) is not type(b) or a != b:
             raise Failure(f"roundtrip:instr:{fname}:{a.mnemonic}", case, f"instruction {k}: {a} decoded as {b} ({type(b).__name__})")
+    # a long-lived Deserializer object (as a controller keeps one) must agree with a fresh one, whatever it was fed before
+    try:
+        back2 = _persistent_deserializer(fname).deserialize_subroutine(raw)
+    except Exception as e:
+        raise Failure("roundtrip:reused-deserializer-raises", case, f"a reused Deserializer raised {type(e).__name__}: {e} on bytes a fresh one decodes")
+    if back2.instructions != sub.instructions or back2.app_id != j["app_id"]:
+        raise Failure("roundtrip:reused-deserializer", case, "a reused Deserializer decodes the same bytes differently from a fresh one")
+    # in-place edits of the instruction list must show up in the next encoding
+    if sub.instructions:
+        import copy as _copy
+
+        sub.instructions.append(_copy.deepcopy(sub.instructions[0]))
+        try:
+            again = deserialize(bytes(sub), flavour=_flav(fname))
+        except Exception as e:
+            raise Failure("roundtrip:reserialise-raises:append", case, f"re-serialising after instructions.append raised {type(e).__name__}: {e}")
+        if again.instructions != sub.instructions:
+            raise Failure("roundtrip:stale-after-append", case, f"after appending an instruction in place the encoded bytes decode to {len(again.instructions)} instructions instead of {len(sub.instructions)}")
+        sub.instructions.pop()
     # the same object serialised again after it was given to another application (instantiate / app_id setter):
     # the bytes must follow the object's current state, not an earlier serialisation
     for how in ("instantiate", "setter"):
@@ -100,11 +119,28 @@ def check_roundtrip(j) -> None:
             raise Failure(f"roundtrip:stale-after-{how}", case, f"after {how} to application {new_id} the encoded bytes decode with app id {again.app_id}, version {again.netqasm_version}")
 
 
+@functools.lru_cache(maxsize=None)
+def _persistent_deserializer(fname):
+    from netqasm.lang.parsing.binary import Deserializer
+
+    return Deserializer(_flav(fname))
+
+
 def check_bytes(fname: str, raw: bytes) -> bool:
     """returns True if the bytes decoded"""
     from netqasm.lang.parsing import deserialize
 
     case = {"kind": "bytes", "flavour": fname, "hex": raw.hex()}
+    try:
+        p1 = _persistent_deserializer(fname).deserialize_subroutine(raw)  # may raise: truncated / unknown opcode inputs are fine
+    except Exception:
+        p1 = None
+    try:
+        f1 = deserialize(raw, flavour=_flav(fname))
+    except Exception:
+        f1 = None
+    if (p1 is None) != (f1 is None) or (p1 is not None and (p1.instructions != f1.instructions or p1.app_id != f1.app_id)):
+        raise Failure("bytes:reused-deserializer", case, "a long-lived Deserializer object and a fresh one disagree on these bytes (its behaviour depends on what it decoded before)")
     try:
         s1 = deserialize(raw, flavour=_flav(fname))
     except Exception:
@@ -128,9 +164,10 @@ def st_bytes(fname: str):
     cmd2 = st.tuples(st.sampled_from(opcodes), st.lists(st.integers(0, 63), min_size=6, max_size=6)).map(
         lambda t: bytes([t[0]] + t[1])
     )
-    return st.tuples(st.binary(min_size=4, max_size=4), st.lists(cmd | cmd2, min_size=1, max_size=6)).map(
-        lambda t: t[0] + b"".join(t[1])
-    )
+    good = st.tuples(st.binary(min_size=4, max_size=4), st.lists(cmd | cmd2, min_size=1, max_size=6)).map(lambda t: t[0] + b"".join(t[1]))
+    # invalid inputs (truncated, unknown opcode) are rejected; they must not disturb later decoding
+    bad = st.one_of(good.map(lambda b: b[:-3]), st.tuples(st.binary(min_size=4, max_size=4), st.binary(min_size=7, max_size=7)).map(lambda t: t[0] + b"\xee" + t[1][1:]))
+    return st.one_of(good, good, good, bad)
 
 
 def shard(ctx: Ctx) -> None:
